@@ -299,6 +299,26 @@ def run(world, rep, tier, only=None):
             rep.ob("C14.a", site(fn, "failed %s yields an error#%d" % (ver, i)), not bad and seen_err,
                    "with the verifier failing and checksum errors not ignored, every return is non-zero and %s is produced: "
                    "zero/unknown returns %s" % (err, [(b[0], b[1]) for b in bad[:3]]), [b[2] for b in bad[:1]] or None)
+    # K3: nothing but the recorded conditions may keep a read path from calling its verifier
+    import os
+    if not os.path.exists(VG_REF):
+        raise Broken("reference rules/ref/c14_verify_guards.tsv missing")
+    ref = {}
+    for line in open(VG_REF):
+        if line.startswith("#") or not line.strip():
+            continue
+        f_, ver_, i_, lits_ = line.rstrip("\n").split("\t")
+        ref[(f_, ver_, int(i_))] = [x for x in lits_.split(" ;; ") if x]
+    now = verify_guards(world, prog, READERS)
+    for key in sorted(ref):
+        if key not in now:
+            rep.ob("C14.a", "%s:%s#%d restricting conditions" % key, False, "verifier call no longer present")
+            continue
+        extra = [x for x in now[key] if x not in ref[key]]
+        rep.ob("C14.a", "%s:%s#%d restricted only by the recorded conditions" % key, not extra,
+               "conditions under which the read path skips the verifier: %d recorded; new or changed: %s" %
+               (len(ref[key]), [x[:90] for x in extra]))
+
     # classes e2fsck verifies itself
     sb = prog.fn("check_super_block", "e2fsck/super.c")
     rows, _l = problems.load(world)
@@ -482,6 +502,60 @@ def _caller_stops(prog, cf, cn):
     return False
 
 
+def _deep(fn, e, depth=0, names=None):
+    """expression with single-assignment locals replaced by their definitions (3 levels); remaining locals and
+    parameters are numbered by first occurrence, so the shape does not depend on identifier names"""
+    if names is None:
+        names = {}
+    e = T.strip(e)
+    if not isinstance(e, dict) or depth > 3:
+        return T.pp(e) if not isinstance(e, dict) else "…"
+    k = e.get("k")
+    if k == "v":
+        if e.get("s") == "l":
+            r = resolve_local(fn, e)
+            if r is not e and T.strip(r) is not e and e["n"] not in T.vars_in(r):
+                return _deep(fn, r, depth + 1, names)
+        if e.get("s") in ("l", "p"):
+            key = (e.get("s"), e["n"])
+            if key not in names:
+                names[key] = "$%s%d" % (e["s"], len(names))
+            return names[key]
+        return e["n"]
+    if k == "i":
+        return T.pp(e)
+    if k == "m":
+        return _deep(fn, e["b"], depth, names) + ("->" if e.get("a") else ".") + e["f"]
+    if k == "b":
+        return "(%s %s %s)" % (_deep(fn, e["l"], depth, names), e["o"], _deep(fn, e["r"], depth, names))
+    if k == "u":
+        return "%s%s" % (e.get("o"), _deep(fn, e["e"], depth, names))
+    if k == "x":
+        return "%s[%s]" % (_deep(fn, e["b"], depth, names), _deep(fn, e["i"], depth, names))
+    if k == "cast":
+        return _deep(fn, e["e"], depth, names)
+    if k == "c":
+        nm = e.get("mac") or e.get("fn") or "call"
+        return "%s(%s)" % (nm, ", ".join(_deep(fn, a, depth, names) for a in e.get("a", [])))
+    if k == "?":
+        return "(%s ? %s : %s)" % (_deep(fn, e["c0"], depth, names), _deep(fn, e["t"], depth, names), _deep(fn, e["f"], depth, names))
+    return T.pp(e)
+
+
+def verify_guards(world, prog, readers):
+    """{(function, verifier): sorted list of (truth, shape)} — every branch literal that restricts the verifier call"""
+    out = {}
+    for (file, fname, ver, err) in readers:
+        fn = prog.fn(fname, file)
+        for i, v in enumerate(calls_to(fn, ver)):
+            lits = sorted(set(("" if t else "!") + _deep(fn, a) for (t, a) in control_lits(fn, v)))
+            out[("%s:%s" % (file, fname), ver, i)] = lits
+    return out
+
+
+VG_REF = __import__("os").path.join(__import__("os").path.dirname(__import__("os").path.abspath(__file__)), "ref", "c14_verify_guards.tsv")
+
+
 def _feature_gates(fn):
     out = set()
     for b in fn.blocks:
@@ -621,3 +695,28 @@ def crc_tables(world, rep):
     rep.ob("C14.f", "lib/ext2fs/crc16.c:crc16_table:algebraic definition", not bad and len(t16) == 256,
            "256 entries equal the reflected division by 0xA001; mismatches %s" % bad[:3])
     rep.evaluations += 256
+
+
+if __name__ == "__main__":
+    import sys, os
+    sys.path.insert(0, os.path.dirname(os.path.dirname(os.path.abspath(__file__))))
+    from vlib import engine
+    w = engine.World()
+    prog = w.program("e2fsck")
+    READERS_ = [
+        ("lib/ext2fs/openfs.c", "ext2fs_open2", "ext2fs_superblock_csum_verify", ""),
+        ("lib/ext2fs/inode.c", "ext2fs_read_inode2", "ext2fs_inode_csum_verify", ""),
+        ("lib/ext2fs/inode.c", "ext2fs_get_next_inode_full", "ext2fs_inode_csum_verify", ""),
+        ("lib/ext2fs/dirblock.c", "ext2fs_read_dir_block4", "ext2fs_dir_block_csum_verify", ""),
+        ("lib/ext2fs/extent.c", "ext2fs_extent_get", "ext2fs_extent_block_csum_verify", ""),
+        ("lib/ext2fs/ext_attr.c", "ext2fs_read_ext_attr3", "ext2fs_ext_attr_block_csum_verify", ""),
+        ("lib/ext2fs/rw_bitmaps.c", "read_bitmaps_range_start", "ext2fs_block_bitmap_csum_verify", ""),
+        ("lib/ext2fs/rw_bitmaps.c", "read_bitmaps_range_start", "ext2fs_inode_bitmap_csum_verify", ""),
+        ("lib/ext2fs/mmp.c", "ext2fs_mmp_read", "ext2fs_mmp_csum_verify", ""),
+    ]
+    g = verify_guards(w, prog, READERS_)
+    with open(VG_REF, "w") as f:
+        f.write("# conditions (resolved, canonical) that restrict each read path's verifier call, recorded from the pinned tree\n")
+        for k in sorted(g):
+            f.write("%s\t%s\t%d\t%s\n" % (k[0], k[1], k[2], " ;; ".join(g[k])))
+    print(len(g))
